@@ -7,6 +7,11 @@
 (* read or a sleep).                                                           *)
 (*                                                                            *)
 (* A chunk is "x" (does not match) or "m" (completes a match).                *)
+(* The environment may also wake the reader's wait WITHOUT data: a signal     *)
+(* handled by the parent (EINTR), or an exceptional condition on the          *)
+(* descriptor (urgent data on a TCP socket).  The wrappers around             *)
+(* select()/poll() go back to waiting for what remains of the timeout, so a   *)
+(* wake-up is not a TIMEOUT and does not move the deadline.                   *)
 (* Every behaviour is a timed schedule that harness/checks/deadline.py        *)
 (* replays on the real transports under the virtual clock; the outcome and    *)
 (* the virtual duration of the real call are compared with the behaviour's.   *)
@@ -22,30 +27,35 @@ CONSTANTS TArgs,        \* timeout arguments: DefaultT (-1, "use the instance de
 VARIABLES now, kbuf, hung, npeer,              \* clock, kernel buffer (chunk kinds), hang-up, peer budget
           pc, entry, targ, teff, endTime, tleft, waitEnd,
           outcome, startedAt, returnedAt, readableAtStart, consumed,
-          echo, polls                           \* waitnoecho
+          echo, polls,                          \* waitnoecho
+          wake                                  \* a wake-up without data is pending for the reader's wait
 
 vars == <<now, kbuf, hung, npeer, pc, entry, targ, teff, endTime, tleft, waitEnd,
-          outcome, startedAt, returnedAt, readableAtStart, consumed, echo, polls>>
+          outcome, startedAt, returnedAt, readableAtStart, consumed, echo, polls, wake>>
 
 None == -1000          \* "no timeout"
 DefaultT == -1
 Init == /\ now = 0 /\ kbuf = <<>> /\ hung = FALSE /\ npeer = 0
         /\ pc = "idle" /\ entry = "none" /\ targ = 0 /\ teff = 0 /\ endTime = 0 /\ tleft = 0 /\ waitEnd = 0
         /\ outcome = "none" /\ startedAt = 0 /\ returnedAt = 0 /\ readableAtStart = 0 /\ consumed = 0
-        /\ echo = TRUE /\ polls = 0
+        /\ echo = TRUE /\ polls = 0 /\ wake = FALSE
 
 RV == <<pc, entry, targ, teff, endTime, tleft, waitEnd, outcome, startedAt, returnedAt, readableAtStart, consumed, polls>>
 
 (* ---- the peer and the clock ------------------------------------------------ *)
 PeerEmit(k) == /\ ~hung /\ npeer < MaxPeer /\ pc # "done"
                /\ kbuf' = Append(kbuf, k) /\ npeer' = npeer + 1
-               /\ UNCHANGED <<now, hung, echo>> /\ UNCHANGED RV
+               /\ UNCHANGED <<now, hung, echo, wake>> /\ UNCHANGED RV
 PeerHangup  == /\ ~hung /\ npeer < MaxPeer /\ pc # "done"
                /\ hung' = TRUE /\ npeer' = npeer + 1
-               /\ UNCHANGED <<now, kbuf, echo>> /\ UNCHANGED RV
+               /\ UNCHANGED <<now, kbuf, echo, wake>> /\ UNCHANGED RV
 PeerEchoOff == /\ echo /\ npeer < MaxPeer /\ pc # "done"
                /\ echo' = FALSE /\ npeer' = npeer + 1
-               /\ UNCHANGED <<now, kbuf, hung>> /\ UNCHANGED RV
+               /\ UNCHANGED <<now, kbuf, hung, wake>> /\ UNCHANGED RV
+\* a signal arrives at the parent / the peer sends urgent data: whoever waits is woken, nothing becomes readable
+EnvWake     == /\ ~wake /\ npeer < MaxPeer /\ pc # "done"
+               /\ wake' = TRUE /\ npeer' = npeer + 1
+               /\ UNCHANGED <<now, kbuf, hung, echo>> /\ UNCHANGED RV
 
 \* time passes only while nobody computes: before the call, inside a timed wait / blocking read, in a sleep
 Tick == /\ now < MaxTime
@@ -55,7 +65,7 @@ Tick == /\ now < MaxTime
         /\ now' = now + 1
         /\ IF pc = "sleeping" THEN pc' = "wne_recompute" /\ UNCHANGED <<entry, targ, teff, endTime, tleft, waitEnd, outcome, startedAt, returnedAt, readableAtStart, consumed, polls>>
            ELSE UNCHANGED RV
-        /\ UNCHANGED <<kbuf, hung, npeer, echo>>
+        /\ UNCHANGED <<kbuf, hung, npeer, echo, wake>>
 
 (* ---- entry points: -1 means the instance default ----------------------------- *)
 Eff(e, t) == IF t = DefaultT THEN (IF e \in Devs THEN -1 ELSE InstT)      \* e \in Devs: this entry point forgets the mapping
@@ -68,7 +78,7 @@ Enter(e, t) ==
   /\ tleft' = Eff(e, t)
   /\ startedAt' = now /\ readableAtStart' = Len(kbuf) /\ consumed' = 0
   /\ pc' = "check"          \* existing_data() found nothing (the pending text is empty)
-  /\ UNCHANGED <<now, kbuf, hung, npeer, waitEnd, outcome, returnedAt, echo, polls>>
+  /\ UNCHANGED <<now, kbuf, hung, npeer, waitEnd, outcome, returnedAt, echo, polls, wake>>
 
 Done(o) == pc' = "done" /\ outcome' = o /\ returnedAt' = now
 
@@ -76,7 +86,7 @@ Done(o) == pc' = "done" /\ outcome' = o /\ returnedAt' = now
 Check ==
   /\ pc = "check"
   /\ IF tleft # None /\ tleft < 0 THEN Done("TIMEOUT") ELSE pc' = "read" /\ UNCHANGED <<outcome, returnedAt>>
-  /\ UNCHANGED <<now, kbuf, hung, npeer, entry, targ, teff, endTime, tleft, waitEnd, startedAt, readableAtStart, consumed, echo, polls>>
+  /\ UNCHANGED <<now, kbuf, hung, npeer, entry, targ, teff, endTime, tleft, waitEnd, startedAt, readableAtStart, consumed, echo, polls, wake>>
 
 \* read_nonblocking(maxread, timeout): what is readable now, else wait up to `timeout`
 Take == /\ kbuf' = Tail(kbuf) /\ consumed' = consumed + 1
@@ -89,14 +99,23 @@ Read ==
      ELSE IF tleft = 0 THEN Done("TIMEOUT") /\ UNCHANGED <<kbuf, consumed, waitEnd>>
      ELSE /\ pc' = "waiting" /\ waitEnd' = (IF tleft = None THEN None ELSE now + tleft)
           /\ UNCHANGED <<kbuf, consumed, outcome, returnedAt>>
-  /\ UNCHANGED <<now, hung, npeer, entry, targ, teff, endTime, tleft, startedAt, readableAtStart, echo, polls>>
+  /\ UNCHANGED <<now, hung, npeer, entry, targ, teff, endTime, tleft, startedAt, readableAtStart, echo, polls, wake>>
 
 Waiting ==
   /\ pc = "waiting"
   /\ IF kbuf # <<>> THEN Take
      ELSE IF hung THEN Done("EOF") /\ UNCHANGED <<kbuf, consumed>>
      ELSE /\ waitEnd # None /\ now = waitEnd /\ Done("TIMEOUT") /\ UNCHANGED <<kbuf, consumed>>
-  /\ UNCHANGED <<now, hung, npeer, entry, targ, teff, endTime, tleft, waitEnd, startedAt, readableAtStart, echo, polls>>
+  /\ UNCHANGED <<now, hung, npeer, entry, targ, teff, endTime, tleft, waitEnd, startedAt, readableAtStart, echo, polls, wake>>
+
+\* the wait returns without data (EINTR / exceptional condition): select_ignore_interrupts / poll_ignore_interrupts
+\* subtract the time already waited and wait again - same absolute end, nothing reported.
+\* "WakeIsTimeout" (a mutant, never a listed deviation): the empty result is taken for the timeout having expired.
+Woken ==
+  /\ pc = "waiting" /\ wake
+  /\ wake' = FALSE
+  /\ IF "WakeIsTimeout" \in Devs /\ kbuf = <<>> /\ ~hung THEN Done("TIMEOUT") ELSE UNCHANGED <<pc, outcome, returnedAt>>
+  /\ UNCHANGED <<now, kbuf, hung, npeer, entry, targ, teff, endTime, tleft, waitEnd, startedAt, readableAtStart, consumed, echo, polls>>
 
 \* `if timeout is not None: timeout = end_time - time.time()`
 Recompute ==
@@ -104,7 +123,7 @@ Recompute ==
   /\ tleft' = IF "PerReadTimeout" \in Devs THEN tleft                   \* (a mutant, never a listed deviation)
               ELSE IF teff = None THEN None ELSE endTime - now
   /\ pc' = "check"
-  /\ UNCHANGED <<now, kbuf, hung, npeer, entry, targ, teff, endTime, waitEnd, outcome, startedAt, returnedAt, readableAtStart, consumed, echo, polls>>
+  /\ UNCHANGED <<now, kbuf, hung, npeer, entry, targ, teff, endTime, waitEnd, outcome, startedAt, returnedAt, readableAtStart, consumed, echo, polls, wake>>
 
 (* ---- spawn.waitnoecho: poll the ECHO flag every tick (0.1 s) ------------------- *)
 EnterWNE(t) ==
@@ -113,7 +132,7 @@ EnterWNE(t) ==
   /\ endTime' = IF Eff("waitnoecho", t) = None THEN None ELSE now + Eff("waitnoecho", t)
   /\ tleft' = Eff("waitnoecho", t)
   /\ startedAt' = now /\ polls' = 0 /\ pc' = "wne_poll"
-  /\ UNCHANGED <<now, kbuf, hung, npeer, waitEnd, outcome, returnedAt, readableAtStart, consumed, echo>>
+  /\ UNCHANGED <<now, kbuf, hung, npeer, waitEnd, outcome, returnedAt, readableAtStart, consumed, echo, wake>>
 
 \* while True: if not getecho(): return True
 \*             if timeout is not None and timeout < 0: return False     (the value computed one round earlier)
@@ -126,17 +145,17 @@ WnePoll ==
      ELSE IF tleft # None /\ tleft < 0 THEN Done("False") /\ UNCHANGED tleft
      ELSE /\ tleft' = (IF teff = None THEN None ELSE endTime - now)
           /\ pc' = "sleeping" /\ UNCHANGED <<outcome, returnedAt>>
-  /\ UNCHANGED <<now, kbuf, hung, npeer, entry, targ, teff, endTime, waitEnd, startedAt, readableAtStart, consumed, echo>>
+  /\ UNCHANGED <<now, kbuf, hung, npeer, entry, targ, teff, endTime, waitEnd, startedAt, readableAtStart, consumed, echo, wake>>
 
 WneRecompute ==     \* (the sleep is over)
   /\ pc = "wne_recompute"
   /\ pc' = "wne_poll"
-  /\ UNCHANGED <<now, kbuf, hung, npeer, entry, targ, teff, endTime, tleft, waitEnd, outcome, startedAt, returnedAt, readableAtStart, consumed, echo, polls>>
+  /\ UNCHANGED <<now, kbuf, hung, npeer, entry, targ, teff, endTime, tleft, waitEnd, outcome, startedAt, returnedAt, readableAtStart, consumed, echo, polls, wake>>
 
-Next == \/ PeerEmit("x") \/ PeerEmit("m") \/ PeerHangup \/ PeerEchoOff \/ Tick
+Next == \/ PeerEmit("x") \/ PeerEmit("m") \/ PeerHangup \/ PeerEchoOff \/ EnvWake \/ Tick
         \/ \E e \in Entries \ {"waitnoecho"}, t \in TArgs : Enter(e, t)
         \/ (\E t \in TArgs : "waitnoecho" \in Entries /\ EnterWNE(t))
-        \/ Check \/ Read \/ Waiting \/ Recompute \/ WnePoll \/ WneRecompute
+        \/ Check \/ Read \/ Waiting \/ Woken \/ Recompute \/ WnePoll \/ WneRecompute
 
 Spec == Init /\ [][Next]_vars
 
